@@ -190,6 +190,38 @@ def program_worker(job):
     except Exception as e:
         rec["fail"].append(("trace-or-build-raises", f"{type(e).__name__}: {str(e)[:200]}"))
         return rec
+    # the documented interface of a derived result: requested order, per struct the fields in the documented order
+    # (values before null), whatever function produced the array
+    want_in, want_out = [], []
+    for k in sorted(lazy):
+        d = prog["inputs"][k]["dtype"]
+        want_in += [f"i{k}_values", f"i{k}_null"] if impl.is_nullable(d) else [f"i{k}"]
+    for j, r in enumerate(res):
+        want_out += [f"o{j}_values", f"o{j}_null"] if impl.is_nullable(impl.dtname(r.dtype)) else [f"o{j}"]
+    got_in, got_out = [v.name for v in model.graph.input], [v.name for v in model.graph.output]
+    if got_in != want_in:
+        rec["fail"].append(("input-names-or-order", f"{got_in} != {want_in}"))
+    if got_out != want_out:
+        bad = next((j for j, r in enumerate(res) if impl.is_nullable(impl.dtname(r.dtype)) and
+                    (f"o{j}_null" in got_out and f"o{j}_values" in got_out and got_out.index(f"o{j}_null") < got_out.index(f"o{j}_values"))), None)
+        where_ = f" (first after step {bad}: {prog['steps'][bad]['op']})" if bad is not None else ""
+        rec["fail"].append(("output-names-or-order", f"{got_out} != {want_out}{where_}"))
+    # the documented interface of a derived result: requested order, per struct the fields in the documented order
+    # (values before null), whatever function produced the array
+    want_in, want_out = [], []
+    for k in sorted(lazy):
+        d = prog["inputs"][k]["dtype"]
+        want_in += [f"i{k}_values", f"i{k}_null"] if impl.is_nullable(d) else [f"i{k}"]
+    for j, r in enumerate(res):
+        want_out += [f"o{j}_values", f"o{j}_null"] if impl.is_nullable(impl.dtname(r.dtype)) else [f"o{j}"]
+    got_in, got_out = [v.name for v in model.graph.input], [v.name for v in model.graph.output]
+    if got_in != want_in:
+        rec["fail"].append(("input-names-or-order", f"{got_in} != {want_in}"))
+    if got_out != want_out:
+        bad = next((j for j, r in enumerate(res) if impl.is_nullable(impl.dtname(r.dtype)) and
+                    (f"o{j}_null" in got_out and f"o{j}_values" in got_out and got_out.index(f"o{j}_null") < got_out.index(f"o{j}_values"))), None)
+        where_ = f" (first after step {bad}: {prog['steps'][bad]['op']})" if bad is not None else ""
+        rec["fail"].append(("output-names-or-order", f"{got_out} != {want_out}{where_}"))
     try:
         onnx.checker.check_model(model, full_check=True)
     except Exception as e:
